@@ -171,6 +171,7 @@ type arStep struct {
 	Wire   string `json:"wire"` // base64 of the raw bytes written to the socket
 	Half   bool   `json:"half"` // close the write side after sending (truncated body)
 	Fwd    string `json:"fwd"`  // behaviour of the auth service for this request
+	Hangup bool   `json:"hangup"` // the caller closes its connection while the auth service is being asked (it does not wait for the answer)
 	FailAt int    `json:"fail_at"`
 	N      int    `json:"n"`
 	WireB  string `json:"wire_b"`
@@ -317,10 +318,12 @@ type arFwdService struct {
 	base     string
 	closedLn string
 	release  chan struct{}
+	inflight chan struct{} // signalled when the auth service has received a call
+	done     chan struct{} // signalled when it has answered
 }
 
 func newArFwdService() (*arFwdService, error) {
-	f := &arFwdService{behave: "200", release: make(chan struct{})}
+	f := &arFwdService{behave: "200", release: make(chan struct{}), inflight: make(chan struct{}, 64), done: make(chan struct{}, 64)}
 	ln, err := net.Listen("tcp", "127.0.0.1:0")
 	if err != nil {
 		return nil, err
@@ -365,6 +368,27 @@ func (f *arFwdService) handle(w http.ResponseWriter, r *http.Request) {
 	f.seen = append(f.seen, arFwdSeen{Method: r.Method, OrigPath: r.Header.Get("X-Hookaido-Original-Path"),
 		OrigMethod: r.Header.Get("X-Hookaido-Original-Method"), BodyLen: len(body), Answer: b})
 	f.mu.Unlock()
+	select {
+	case f.inflight <- struct{}{}:
+	default:
+	}
+	defer func() {
+		select {
+		case f.done <- struct{}{}:
+		default:
+		}
+	}()
+	if strings.HasPrefix(b, "slow") {
+		// the decision takes a while (the caller of the ingress may hang up meanwhile), then the scripted status is answered
+		time.Sleep(150 * time.Millisecond)
+		code := 0
+		fmt.Sscanf(strings.TrimPrefix(b, "slow"), "%d", &code)
+		if code < 200 || code > 599 {
+			code = 500
+		}
+		w.WriteHeader(code)
+		return
+	}
 	switch b {
 	case "hang":
 		select {
@@ -596,6 +620,49 @@ func (a *arRuntime) send(raw []byte, half bool) int {
 	return resp.StatusCode
 }
 
+// sendHangup writes the request, waits until the auth service has been asked, closes the connection and then gives the handler time
+// to finish (the auth service answers 150 ms after it was asked).  No status can be observed: -7.
+func (a *arRuntime) sendHangup(raw []byte) int {
+	for len(a.fwd.inflight) > 0 {
+		<-a.fwd.inflight
+	}
+	for len(a.fwd.done) > 0 {
+		<-a.fwd.done
+	}
+	c, err := net.DialTimeout("tcp", a.addr, 3*time.Second)
+	if err != nil {
+		return -1
+	}
+	if _, err := c.Write(raw); err != nil {
+		c.Close()
+		return -2
+	}
+	select {
+	case <-a.fwd.inflight:
+	case <-time.After(2 * time.Second):
+		c.Close()
+		return -8 // the auth service was never asked
+	}
+	if tc, ok := c.(*net.TCPConn); ok {
+		tc.SetLinger(0) // reset, as a caller that went away
+	}
+	c.Close()
+	select {
+	case <-a.fwd.done:
+	case <-time.After(2 * time.Second):
+	}
+	// the handler continues after the auth call returned or was cancelled: let it finish
+	last := a.total()
+	for i := 0; i < 8; i++ {
+		time.Sleep(40 * time.Millisecond)
+		if n := a.total(); n != last {
+			last = n
+			i = 0
+		}
+	}
+	return -7
+}
+
 func (a *arRuntime) total() int {
 	st, err := a.store.Stats()
 	if err != nil {
@@ -646,7 +713,11 @@ func (a *arRuntime) doReq(st arStep) arStepOut {
 	a.fwd.set(st.Fwd)
 	a.takeRecords()
 	out.TotalB = a.total()
-	out.Status = a.send(raw, st.Half)
+	if st.Hangup {
+		out.Status = a.sendHangup(raw)
+	} else {
+		out.Status = a.send(raw, st.Half)
+	}
 	out.TotalA = a.total()
 	recs := a.takeRecords()
 	if len(recs) > 0 {
